@@ -118,6 +118,9 @@ func TestWorker(t *testing.T) {
 			}
 			emit("B", map[string]any{"scenario": sc.ID})
 			st := ExploreScenario(t, sc, deadline)
+			if os.Getenv("VH_DBG") != "" {
+				fmt.Fprintf(os.Stderr, "DBG rounds=%d execs=%d\n", dbgRounds, st.ExecsTotal)
+			}
 			emit("S", st)
 		}
 	}
